@@ -14,8 +14,10 @@
 (* of which is one or two library calls; objects are processed in any order. *)
 (***************************************************************************)
 EXTENDS Naturals, Sequences, FiniteSets, TLC
-CONSTANTS MaxDev
-Objects == {"r1", "r2", "c1"}           \* two ROAs and the certificate of a child CA
+CONSTANTS MaxDev,
+          Objects                       \* the files of the publication point besides manifest and CRL (ROAs, certificates of child CAs)
+\* (model checking lets the CRL revoke the manifest's certificate or one of two objects; recorded walks may name any object)
+RevokedChoices == IF Cardinality(Objects) <= 3 THEN Objects \ {"r2"} ELSE Objects
 ObjFacets == [listed |-> {"ok", "badhash", "unlisted"},  \* what the manifest says about the file
               present |-> {"yes", "no"},                 \* whether the repository has it
               sig |-> {"ca", "other"},                   \* which key issued it (its EE certificate for a ROA)
@@ -25,7 +27,7 @@ PpFacets == [mftsig |-> {"ca", "other"},
              crlsig |-> {"ca", "other"},
              crltime |-> {"ok", "stale"},
              crllisted |-> {"ok", "badhash", "unlisted"},
-             revokes |-> {"none", "mft", "r1", "c1"}]    \* whose serial number the CRL lists
+             revokes |-> {"none", "mft"} \cup RevokedChoices]   \* whose serial number the CRL lists
 GoodObj == [listed |-> "ok", present |-> "yes", sig |-> "ca", res |-> "inside"]
 GoodPp == [mftsig |-> "ca", mfttime |-> "ok", crlsig |-> "ca", crltime |-> "ok", crllisted |-> "ok", revokes |-> "none"]
 
